@@ -100,7 +100,7 @@ def gen(rng: Rng, tier, i):
         # '..' in the spelling of the target: behind a real directory, or behind a SYMLINKED one
         # (then the physical target is not what a lexical collapse of the path names); a complete
         # decoy object sits at the lexically collapsed path
-        tgt = dict(tgt, name=dd.pick(["sub/../", "lnk/../"]) + tgt["name"])
+        tgt = dict(tgt, name=dd.pick(["sub/../", "lnk/../", "~/"]) + tgt["name"])
     # "symlink_obj": the target is a symbolic link to an earlier COMPLETE object elsewhere (results
     # folder on scratch storage).  The library may refuse such a save or replace the link; what it
     # must never do is leave a partial object loadable through the target path.
@@ -119,6 +119,11 @@ def gen(rng: Rng, tier, i):
         steps.append({"op": "save", "v": v, "mode": mode,
                       "level": rng.pick([None, 0, 1, 4, 4, 9]),
                       "path_kind": rng.pick(["str", "Path", "str", "Path", "rel", "relPath"])})
+    if tgt["name"].startswith("~/"):
+        # a target spelled with a leading '~' (round 15, S-C08o): given verbatim; the scratch $HOME of
+        # the simulated machine holds a complete decoy object under the same name
+        for st in steps:
+            st["path_kind"] = "tilde" if st["path_kind"] in ("str", "rel") else "tildePath"
     focus = nver - 1
     if nver == 3 and rng.chance(0.8):
         steps[1]["fault_frac"] = {"kind": rng.pick(["store", "store", "zip_write", "ser"]),
@@ -172,6 +177,13 @@ def _setup_pre(E, plan, tgt_path):
             raise HarnessError(f"could not create the decoy object: {exc!r}")
     elif name.startswith("sub/../"):
         os.makedirs(os.path.join(E.work, "sub"))
+    elif name.startswith("~/"):
+        os.makedirs(E.home)
+        decoy = os.path.join(E.home, _final_path(plan)[len("~/"):])
+        obj = _build_version(plan, len(plan["versions"]) - 1)
+        _, exc, _ = E.save(obj, decoy, mode="w", store=_store_kind(plan))
+        if exc is not None:
+            raise HarnessError(f"could not create the decoy object in $HOME: {exc!r}")
     os.makedirs(os.path.dirname(tgt_path), exist_ok=True)   # pre-existing (maybe empty) parents
     # siblings that no save may touch
     os.makedirs(os.path.join(E.work, "sib_dir", "sub"))
@@ -303,6 +315,8 @@ def _execute(plan, focus_fault, rec_counts=None, refs=None, keep_log=True):
         _setup_pre(E, plan, tgt_final)
         if plan.get("hardlinks") and plan["pre"] == "file":
             bump(out["probes"], "hardlinked_foreign_file")
+        if plan["target"]["name"].startswith("~/"):
+            bump(out["probes"], "tilde_in_target_with_decoy_in_home")
         if "/../" in plan["target"]["name"]:
             bump(out["probes"], "dotdot_in_target_" + plan["target"]["name"].split("/")[0])
         last_ok = None          # version id of the last successful save to the target
